@@ -84,7 +84,9 @@ def canary(run, relfile, qual, make_contract, engine_setup=None):
         if engine_setup:
             engine_setup(eng)
         c = _mk(make_contract, eng)
-        c.ensures = lambda S, a, r: [("canary: False", z3.BoolVal(False))]
+        orig_ens = c.ensures
+        # the original ensures still runs (it may add lemma instances as axioms: their consistency is what the canary tests)
+        c.ensures = lambda S, a, r: ((orig_ens(S, a, r) if orig_ens else None), [("canary: False", z3.BoolVal(False))])[1]
         obs = eng.verify(qual, c)
     except Unsupported:
         return None
@@ -184,3 +186,19 @@ def symtab_obligations(run):
         if not ok:
             failed.append((fq, desc, line))
     return failed
+
+
+def lemma_library(run):
+    """The counting / summing facts used as axioms by the VCs, proved by induction (pyvc/lemmas.py)."""
+    from pyvc import lemmas
+    fq = "lemma::library (counting and summing, by induction)"
+    run.functions.setdefault(fq, {"file": "/verif/pyvc/lemmas.py", "dropped": [], "obligations": 0, "discharged": 0,
+                                  "note": "base and step of each induction are separate quantifier-free queries"})
+    bad = []
+    for name, st, t in lemmas.prove_all():
+        run.add_obligation("lemma/" + name, fq, st, "z3-%s" % __import__("z3").get_version_string(), t, name)
+        if st != "proved":
+            bad.append(name)
+    if bad:
+        from vlib.common import CheckerError
+        raise CheckerError("lemma library: not proved: %s" % bad)
